@@ -70,6 +70,21 @@ CHECKS.update({
     note='State inside numpy / scipy (C level) is outside the snapshot; the operation list is finite and stated in evidence.', ref='DESIGN.md §3 C20'),
 })
 
+CHECKS.update({
+ 'C13': dict(technique=TECH + '; symbolic terminal coordinates (equality forks, union-find fast path) through the real parser and translator',
+    text='Bounded symbolic verification of the schematic reader: real symbol objects of every two-terminal kind (all reversal / sine / degree flag combinations), wires, node labels and ground are given SYMBOLIC terminal coordinates; the real SchematicDiagramParser and circuit_translator are executed and every coincidence pattern of the terminals is explored; on every path the node index of every terminal pair agrees with an independent union-find over "coincide or joined by a wire", labels and ground name the node they sit on, and the translated component list equals the intended netlist (identifier, kind, terminal order with source polarity start->end unless reversed, every value as a polynomial identity, degree->radian and sine->cosine phase conversion).',
+    note='schemdraw\'s own placement arithmetic (at / right / up, rotation, unit scaling) and the 2-decimal rounding of anchors are NOT encoded: anchors are free symbolic coordinates, so the rotation / translation / rescaling / wire-splitting clause holds exactly as far as those operations preserve which terminals coincide. Element lists up to 4 (quick) / 5 (thorough) items; compound RealVoltageSource / RealCurrentSource symbols not covered; label text stubbed.', ref='DESIGN.md §3 C13'),
+ 'C14': dict(technique=TECH + '; recording stubs for the formatter and the label classes',
+    text='Bounded symbolic verification of the annotation plumbing: every adapter getter in both directions and every draw_* factory of the four solution factories (and the declarative SolutionDefinition) is executed on drawings with symbolic values and symbolic frequency; z3 / normal form shows the number handed to the formatter equals the circuit solution quantity in the element\'s reference direction, negated exactly when reverse is requested, with the right unit, frequency and unchanged display options; the sinusoidal annotation carries the peak phasor, equal to sqrt(2) times the complex (RMS) annotation, and the real annotation equals Re(sqrt(2) x complex at w = 0); arrow direction is reverse XOR element-reversed.',
+    note='The TEXT rendering of the number is C18\'s subject (formatters are recording stubs here; the phase / frequency text of print_sinosoidal is not discharged); connectivity is C13\'s subject (concrete coordinates here); schemdraw label placement is stubbed.', ref='DESIGN.md §3 C14'),
+ 'C15': dict(technique=TECH + '; json as identity-on-representable-trees stub; real schemdraw geometry with symbolic element values',
+    text='Bounded symbolic verification of save / reload and declarative descriptions: real schemdraw drawings with one source of every persistable kind (every reversal / degree / sine flag combination), two passive symbols, a wire and ground, whose values are symbolic, are serialised and reloaded once and twice through the real dictify / undictify code; the reloaded drawing is translated by the real parser / translator and compared with the original circuit (identifiers, kinds, order, terminal order, connectivity up to a bijective renaming of nodes, reference node, every value as a polynomial identity); declarative element lists (direction orders, lengths, place_after, unit) are compared with the equivalent programmatic construction.',
+    note='Geometry is produced by schemdraw itself and is concrete; the real json library is used in concrete replay only; file I/O is not exercised; the identifier of the ground symbol is not compared.', ref='DESIGN.md §3 C15'),
+ 'C18': dict(technique='symbolic execution of the real formatting code on a symbolic real per decade with a decimal-numeral contract model of str(float) / format(float), contract stubs on a decimal grid for round / int / %1, token-based numeral parser; z3 mixed integer / real linear arithmetic; CrossHair for the prefix logic',
+    text='Bounded symbolic verification of number rendering: FloatPrecision / Float3 / ScientificFloat / ScientificComplex are executed on a symbolic value for every decade k = -17..16, precision, prefix mode and sign; every rounding-carry region is explored by forking; z3 shows on every path that the rendered text, parsed back (sign, integer digits, fraction digits, exponent suffix, SI prefix), lies within half a unit of the p-th significant digit, has an exponent that is a multiple of three, a mantissa between 1 and 1000 with well-formed fraction digits, that infinity appears only beyond the range with the right sign, and that complex values render as [sign]R[+/-]jI from the renderings of |re| and |im|; CrossHair confirms prefix + extension denote the exponent for arbitrary exponents and tables. Two genuine defects are recorded as known findings.',
+    note='Floats are treated as reals and str(float) / format(float) as the exact decimal expansion (the C routine behind str and the binary representation error of digits are outside the model; the model is validated against the real str()/format() on a concrete sweep). Precision 1..4 (quick) / 1..6 (thorough). Polar / degree rendering of complex values is not discharged.', ref='DESIGN.md §3 C18'),
+})
+
 NOT_YET = {}
 
 def main():
